@@ -192,38 +192,13 @@ func c07Naming(c *core.Ctx, r *core.Report) {
 		}
 	}
 	r.Floor("C07.R3", "component map fills", n, 1)
-	// fan-out passes key and value of one entry
-	for _, s := range c.CallSites(func(com *ssa.CallCommon) bool { return core.IsInvoke(com, ro.DRPPPostProcess) }) {
-		fn := s.Parent()
-		args := s.Common().Args
-		okArgs := false
-		if len(args) == 3 && fn.Parent() != nil {
-			// body parameters (name, component) bound from the go statement's arguments: the Next tuple of one map iteration
-			pn, okN := core.Norm(args[2]).(*ssa.Parameter)
-			pc, okC := core.Norm(args[1]).(*ssa.Parameter)
-			if okN && okC {
-				for _, ci := range core.Calls(fn.Parent()) {
-					g, isGo := ci.(*ssa.Go)
-					if !isGo || core.ClosureOf(g.Call.Value) != fn {
-						continue
-					}
-					var kArg, vArg ssa.Value
-					for i, p := range fn.Params {
-						if p == pn {
-							kArg = g.Call.Args[i]
-						}
-						if p == pc {
-							vArg = g.Call.Args[i]
-						}
-					}
-					kx, ok1 := kArg.(*ssa.Extract)
-					vx, ok2 := vArg.(*ssa.Extract)
-					okArgs = ok1 && ok2 && kx.Tuple == vx.Tuple && kx.Index == 1 && vx.Index == 2
-				}
-			}
+	// fan-out passes key and value of one entry: decision table of the parallel definition scan
+	defScanRules(c, r, func(row string) string {
+		if row == "pairs" {
+			return "C07.R3"
 		}
-		r.Check(okArgs, "C07.R3", "scanner-gets-registry-key@"+core.FnName(fn), c.Pos(s.Pos()), "the definition scanner receives the key and the value of one and the same entry of the registered-components map")
-	}
+		return ""
+	})
 	// and the tag scanner registers under that name
 	for _, s := range c.CallSites(func(com *ssa.CallCommon) bool { return core.IsInvoke(com, ro.DRGetMetaOrRegister) }) {
 		fn := s.Parent()
